@@ -327,7 +327,7 @@ Qed.
 Fixpoint hist_ok (me lo : Z) (ops : list op) : Prop :=
   match ops with
   | [] => True
-  | OAdd e :: r => lo < e_time e /\ len_ok me e /\ hist_ok me (e_time e) r
+  | OAdd e :: r | OAddAsync e :: r => lo < e_time e /\ len_ok me e /\ hist_ok me (e_time e) r
   | _ :: r => hist_ok me lo r
   end.
 
@@ -356,7 +356,7 @@ Qed.
 (** Every operation keeps the log except for one contiguous block (possibly
     empty) that it removes; [add] first appends the new entry. *)
 Definition extra (s : state) (o : op) : list entry :=
-  match o with OAdd e => if enabled (cfg s) then [e] else [] | _ => [] end.
+  match o with OAdd e | OAddAsync e => if enabled (cfg s) then [e] else [] | _ => [] end.
 
 Lemma flat_flush s : flat (flush s) = flat s.
 Proof.
@@ -367,22 +367,28 @@ Qed.
 Lemma on_disk_flush_buf s : buf (flush s) = [].
 Proof. unfold flush. destruct (buf s) eqn:E; auto. Qed.
 
+Lemma flat_add_async s e : exists a x b,
+  flat s ++ (if enabled (cfg s) then [e] else []) = a ++ x ++ b /\ flat (add_async s e) = a ++ b.
+Proof.
+  unfold add_async. destruct (enabled (cfg s)); cbn [negb].
+  - unfold flat, on_disk, push. cbn [rot cur buf].
+    set (d := opt_list (rot s) ++ opt_list (cur s)).
+    destruct (lenZ (buf s ++ [e]) >? cap (cfg s)).
+    + destruct (buf s) as [|y b]; cbn [app tl].
+      * exists d, [e], []. rewrite !app_nil_r. auto.
+      * exists d, [y], (b ++ [e]). rewrite <- !app_assoc. auto.
+    + exists (d ++ buf s ++ [e]), [], []. rewrite !app_nil_r, <- !app_assoc. auto.
+  - exists (flat s), [], []. rewrite !app_nil_r. auto.
+Qed.
+
+Lemma flat_add s e : flat (add s e) = flat (add_async s e).
+Proof. unfold add. destruct (negb (pending s) && pending (add_async s e)); auto using flat_flush. Qed.
+
 Lemma flat_step s o : exists a x b, flat s ++ extra s o = a ++ x ++ b /\ flat (step s o) = a ++ b.
 Proof.
-  destruct o as [e| | | |en ign cl|c]; cbn [step extra].
-  - unfold add. destruct (enabled (cfg s)); cbn [negb].
-    + set (s' := {| cfg := cfg s; buf := push (cfg s) (buf s) e; cur := cur s; rot := rot s |}).
-      assert (H : exists a x b, flat s ++ [e] = a ++ x ++ b /\ flat s' = a ++ b).
-      { unfold flat, on_disk, s', push. cbn [rot cur buf].
-        set (d := opt_list (rot s) ++ opt_list (cur s)).
-        destruct (lenZ (buf s ++ [e]) >? cap (cfg s)).
-        - destruct (buf s) as [|y b]; cbn [app tl].
-          + exists d, [e], []. rewrite !app_nil_r. auto.
-          + exists d, [y], (b ++ [e]). rewrite <- !app_assoc. auto.
-        - exists (d ++ buf s ++ [e]), [], []. rewrite !app_nil_r, <- !app_assoc. auto. }
-      destruct (file_enabled (cfg s) && (lenZ (buf s') >=? mem_size (cfg s))); auto.
-      rewrite flat_flush. auto.
-    + exists (flat s), [], []. rewrite !app_nil_r. auto.
+  destruct o as [e|e| | | |en ign cl|c]; cbn [step extra].
+  - rewrite flat_add. apply flat_add_async.
+  - apply flat_add_async.
   - exists (flat s), [], []. rewrite flat_flush, !app_nil_r. auto.
   - unfold rotate, flat, on_disk. destruct (cur s) as [c|] eqn:E.
     + cbn [rot cur buf opt_list]. exists [], (opt_list (rot s)), (c ++ buf s).
@@ -399,23 +405,23 @@ Qed.
 
 Lemma inv_step me s o hi hi' :
   inv me s hi ->
-  match o with OAdd e => hi < e_time e /\ len_ok me e /\ hi' = e_time e | _ => hi' = hi end ->
+  match o with OAdd e | OAddAsync e => hi < e_time e /\ len_ok me e /\ hi' = e_time e | _ => hi' = hi end ->
   inv me (step s o) hi'.
 Proof.
   intros [[[lo Hi] Hl] Hb] Ho.
   destruct (flat_step s o) as (a & x & b & E1 & E2).
   assert (H : (exists lo', incr lo' (flat s ++ extra s o)) /\ Forall (len_ok me) (flat s ++ extra s o) /\
               bounded hi' (flat s ++ extra s o)).
-  { destruct o as [e| | | | |]; cbn [extra]; try (subst hi'; rewrite app_nil_r; eauto).
-    destruct Ho as (Ht & Hle & ->).
-    assert (Hb' : bounded (e_time e) (flat s)).
-    { unfold bounded in *. eapply Forall_impl; [|exact Hb]. cbn. intros; lia. }
-    destruct (enabled (cfg s)); [|rewrite app_nil_r; eauto].
-    split; [|split].
-    - exists (Z.min lo (e_time e - 1)). apply (incr_snoc _ _ e hi); auto; try lia.
-      eapply incr_weaken; [|eauto]. lia.
-    - apply Forall_app; split; auto.
-    - apply Forall_app; split; auto. constructor; auto. lia. }
+  { destruct o as [e|e| | | | |]; cbn [extra]; try (subst hi'; rewrite app_nil_r; eauto);
+    destruct Ho as (Ht & Hle & ->);
+    (assert (Hb' : bounded (e_time e) (flat s))
+       by (unfold bounded in *; eapply Forall_impl; [|exact Hb]; cbn; intros; lia));
+    (destruct (enabled (cfg s)); [|rewrite app_nil_r; eauto]);
+    (split; [|split];
+     [ exists (Z.min lo (e_time e - 1)); apply (incr_snoc _ _ e hi); auto; try lia;
+       eapply incr_weaken; [|eauto]; lia
+     | apply Forall_app; split; auto
+     | apply Forall_app; split; auto; constructor; auto; lia ]). }
   destruct H as ((lo' & H1) & H2 & H3). rewrite E1 in *. unfold inv, wf. rewrite E2.
   split; [split|].
   - exists lo'. eapply incr_remove; eauto.
@@ -427,10 +433,11 @@ Lemma inv_run me : forall ops s hi, inv me s hi -> hist_ok me hi ops ->
   exists hi', inv me (fold_left step ops s) hi'.
 Proof.
   induction ops as [|o ops IH]; intros s hi Hinv Hok; cbn [fold_left]; eauto.
-  destruct o as [e| | | | |]; cbn [hist_ok] in Hok;
-    try (eapply IH; [eapply (inv_step me s _ hi hi); eauto|]; auto; fail).
-  destruct Hok as (H1 & H2 & H3).
-  eapply IH; [eapply (inv_step me s (OAdd e) hi (e_time e)); eauto|]; auto.
+  destruct o as [e|e| | | | |]; cbn [hist_ok] in Hok;
+    try (eapply IH; [eapply (inv_step me s _ hi hi); eauto|]; auto; fail);
+    destruct Hok as (H1 & H2 & H3).
+  - eapply IH; [eapply (inv_step me s (OAdd e) hi (e_time e)); eauto|]; auto.
+  - eapply IH; [eapply (inv_step me s (OAddAsync e) hi (e_time e)); eauto|]; auto.
 Qed.
 
 (** Every reachable state is well formed. *)
@@ -443,14 +450,11 @@ Qed.
 
 (** The precise effect of each operation on the log. *)
 Lemma flat_add_disabled s e : enabled (cfg s) = false -> add s e = s.
-Proof. unfold add. intros ->. reflexivity. Qed.
+Proof. unfold add, add_async. intros ->. cbn [negb]. rewrite andb_negb_l. reflexivity. Qed.
 
 Lemma flat_add_enabled s e : enabled (cfg s) = true ->
   flat (add s e) = on_disk s ++ push (cfg s) (buf s) e.
-Proof.
-  unfold add. intros ->. cbn [negb].
-  match goal with |- context [if ?c then _ else _] => destruct c end; rewrite ?flat_flush; reflexivity.
-Qed.
+Proof. rewrite flat_add. unfold add_async. intros ->. reflexivity. Qed.
 
 Lemma push_room c b e : lenZ b < cap c -> push c b e = b ++ [e].
 Proof.
@@ -488,17 +492,18 @@ Qed.
 (** With file logging on and a positive mem_size, an [add] never loses
     anything: the buffer is flushed as soon as it is full. *)
 Lemma add_file_enabled_keeps s e :
-  enabled (cfg s) = true -> file_enabled (cfg s) = true -> lenZ (buf s) < cap (cfg s) ->
-  flat (add s e) = flat s ++ [e] /\ lenZ (buf (add s e)) < cap (cfg (add s e)).
+  enabled (cfg s) = true -> file_enabled (cfg s) = true -> pending s = false -> lenZ (buf s) < cap (cfg s) ->
+  flat (add s e) = flat s ++ [e] /\ lenZ (buf (add s e)) < cap (cfg (add s e)) /\ pending (add s e) = false.
 Proof.
-  intros He Hf Hb. split.
+  intros He Hf Hp Hb. split.
   - rewrite flat_add_enabled, push_room by auto. unfold flat. rewrite app_assoc. reflexivity.
-  - unfold add. rewrite He, Hf. cbn [negb andb cfg buf]. rewrite push_room by auto.
+  - unfold add, add_async. rewrite He, Hf, Hp. cbn [negb andb orb cfg buf pending]. rewrite push_room by auto.
     rewrite lenZ_app. change (lenZ [e]) with 1.
     destruct (Z.geb_spec (lenZ (buf s) + 1) (mem_size (cfg s))).
-    + rewrite on_disk_flush_buf. unfold flush. cbn [buf].
-      destruct (buf s ++ [e]); cbn [cfg]; unfold lenZ, cap; cbn; lia.
-    + cbn [buf cfg]. rewrite lenZ_app. change (lenZ [e]) with 1. unfold cap in *. lia.
+    + unfold flush. cbn [buf].
+      destruct (buf s ++ [e]) eqn:E; [destruct (buf s); discriminate|].
+      cbn [cfg buf pending]. unfold lenZ, cap; cbn; split; [lia|reflexivity].
+    + cbn [buf cfg pending]. rewrite lenZ_app. change (lenZ [e]) with 1. unfold cap in *. split; [lia|reflexivity].
 Qed.
 
 (** ** No parameter value crashes the request *)
